@@ -364,6 +364,19 @@ class ServerWorld:
         self.ev.append(dict(ev="req", now=self.now(), c=cid, id=rid))
         c["cl"].send(self.aid(c["addr"]).to_bytes(4, "big") + b"GUAR" + rid.to_bytes(4, "big"), retry=-1)
 
+    def resend_challenge(self, cid):
+        """an honest client transmits its challenge response again, as a FRESH message (new datagram and message numbers, sealed under the session key,
+        the right token) - what a client does that is not sure its first one arrived.  The handshake is long over: nothing may happen twice."""
+        C = self.C
+        conn = self.clients[cid]["cl"].conn
+        if conn is None or not conn.session_key_bytes:
+            return False
+        reply = C.HandshakeClientChallengeResponseMessage()
+        reply.token = conn.token
+        conn._send_type(C.PacketType.CHALLENGE_RESP, reply.dumpb(), C.RetryMode.NONE, None)
+        self.ev.append(dict(ev="rechal", now=self.now(), c=cid))
+        return True
+
     def remove_client(self, cid):
         self.ev.append(dict(ev="cgone", now=self.now(), c=cid))
         del self.clients[cid]
